@@ -124,7 +124,9 @@ impl BuildWorld {
         self.bw_after.push(self.task.bytes_written());
         let t = self.tap_st.borrow();
         self.tap_after.push(t.accepted);
-        self.tap_calls_after.push(t.write_calls + t.flush_calls);
+        // write calls only: a flush writes nothing (a builder that flushes
+        // its writer now and then may do so at the start of any call)
+        self.tap_calls_after.push(t.write_calls);
         self.sink_ev_after.push(self.sink.borrow().ev_idx);
     }
 
